@@ -43,6 +43,10 @@ type Chan struct {
 	// selsends is the subset of sends originating from select operations.
 	selsends uint16
 	close    bool
+	// handoffs counts completed unbuffered hand-offs. A receiver remembers the
+	// count when it registers; the count having moved on is how it knows that
+	// its value was delivered, whatever happens to getp or close afterwards.
+	handoffs uint32
 }
 
 func NewChan(eltSize, cap int) *Chan {
@@ -110,6 +114,7 @@ func ChanTrySend(p *Chan, v unsafe.Pointer, eltSize int) bool {
 			c.Memcpy(p.data, v, uintptr(eltSize))
 		}
 		p.getp = chanNoSendRecv
+		p.handoffs++
 	} else {
 		if p.close {
 			p.mutex.Unlock()
@@ -151,6 +156,7 @@ func ChanSend(p *Chan, v unsafe.Pointer, eltSize int) bool {
 			c.Memcpy(p.data, v, uintptr(eltSize))
 		}
 		p.getp = chanNoSendRecv
+		p.handoffs++
 	} else {
 		for p.len == n {
 			p.cond.Wait(&p.mutex)
@@ -175,6 +181,7 @@ func ChanTryRecv(p *Chan, v unsafe.Pointer, eltSize int) (recvOK bool, tryOK boo
 
 func chanTryRecv(p *Chan, v unsafe.Pointer, eltSize int, acceptSelectSend bool) (recvOK bool, tryOK bool) {
 	n := p.cap
+	var ticket uint32
 	p.mutex.Lock()
 	if n == 0 {
 		if p.sends == 0 || p.getp == chanHasRecv || p.close {
@@ -188,6 +195,7 @@ func chanTryRecv(p *Chan, v unsafe.Pointer, eltSize int, acceptSelectSend bool) 
 		}
 		p.getp = chanHasRecv
 		p.data = v
+		ticket = p.handoffs
 	} else {
 		if p.len == 0 {
 			tryOK = p.close
@@ -205,10 +213,10 @@ func chanTryRecv(p *Chan, v unsafe.Pointer, eltSize int, acceptSelectSend bool) 
 	p.cond.Broadcast()
 	if n == 0 {
 		p.mutex.Lock()
-		for p.getp == chanHasRecv && !p.close {
+		for p.handoffs == ticket && !p.close {
 			p.cond.Wait(&p.mutex)
 		}
-		recvOK = !p.close
+		recvOK = p.handoffs != ticket
 		tryOK = recvOK
 		p.mutex.Unlock()
 	} else {
@@ -219,6 +227,7 @@ func chanTryRecv(p *Chan, v unsafe.Pointer, eltSize int, acceptSelectSend bool) 
 
 func ChanRecv(p *Chan, v unsafe.Pointer, eltSize int) (recvOK bool) {
 	n := p.cap
+	var ticket uint32
 	p.mutex.Lock()
 	if n == 0 {
 		for p.getp == chanHasRecv && !p.close {
@@ -230,6 +239,7 @@ func ChanRecv(p *Chan, v unsafe.Pointer, eltSize int) (recvOK bool) {
 		}
 		p.getp = chanHasRecv
 		p.data = v
+		ticket = p.handoffs
 	} else {
 		for p.len == 0 {
 			if p.close {
@@ -249,10 +259,12 @@ func ChanRecv(p *Chan, v unsafe.Pointer, eltSize int) (recvOK bool) {
 	p.cond.Broadcast()
 	if n == 0 {
 		p.mutex.Lock()
-		for p.getp == chanHasRecv && !p.close {
+		for p.handoffs == ticket && !p.close {
 			p.cond.Wait(&p.mutex)
 		}
-		recvOK = !p.close
+		// delivered iff a sender consumed this registration - also when the
+		// channel was closed right after the hand-off
+		recvOK = p.handoffs != ticket
 		p.mutex.Unlock()
 	} else {
 		recvOK = true
